@@ -27,14 +27,14 @@ src: mokapot/parsers/pin_to_tsv.py:199-220 -/
 def pinBodyWrites (sepC : Char) (sepP : Str) (idx nCol : Nat) : List Str → List Str × Option PinErr
   | [] => ([], some .stopIteration)
   | l2 :: more =>
-    (secondOut sepC sepP idx nCol (strip l2)
-       ++ more.map (fun line => convertLine sepC sepP idx nCol (strip line) ++ ['\n']), none)
+    (secondOut sepC sepP idx nCol (chomp l2)
+       ++ more.map (fun line => convertLine sepC sepP idx nCol (chomp line) ++ ['\n']), none)
 
 /-- the header is written (line 193) *before* `parse_pin_header_columns` asserts that there is
 a `Proteins` column (line 194).  src: mokapot/parsers/pin_to_tsv.py:192-194, 22-55 -/
 def pinAfterHeaderWrites (sepC : Char) (sepP : Str) (header : Str) (rest : List Str) :
     List Str × Option PinErr :=
-  let columns := splitOn sepC (strip header)
+  let columns := splitOn sepC (chomp header)
   if columns.contains proteinsName then
     ((header ++ ['\n']) :: (pinBodyWrites sepC sepP (columns.idxOf proteinsName) columns.length rest).1,
      (pinBodyWrites sepC sepP (columns.idxOf proteinsName) columns.length rest).2)
@@ -45,7 +45,7 @@ order, until the function returns (`none`) or raises (`some e`).  An empty input
 anything is written.  src: mokapot/parsers/pin_to_tsv.py:154-220 -/
 def pinToTsvWrites (sepC : Char) (sepP : Str) : List Str → List Str × Option PinErr
   | [] => ([], some .stopIteration)
-  | h :: rest => pinAfterHeaderWrites sepC sepP (strip h) rest
+  | h :: rest => pinAfterHeaderWrites sepC sepP (chomp h) rest
 
 /-! ## what is on disk afterwards -/
 
@@ -107,7 +107,7 @@ def verifyFilesFs (verifyPin : Bool) (files : List (Str × Option Str)) : List S
 /-! ## specification side -/
 
 /-- the whitespace padding of a row does not contain the column separator (a tab used as
-padding *is* a column separator for `is_valid_tsv`, which does not strip) -/
+padding *is* a column separator for `is_valid_tsv`, which does not chomp) -/
 def PinRow.padsFree (sepC : Char) (r : PinRow) : Bool := !r.padL.contains sepC && !r.padR.contains sepC
 
 def PinDoc.padsFree (sepC : Char) (d : PinDoc) : Bool :=
@@ -125,7 +125,7 @@ def docValidSpec (d : PinDoc) : Bool := d.dd.isNone && d.rectangular
 
 /-- what `is_valid_tsv` makes of the line after the header when that is the document's
 DefaultDirection line: it is only recognised when nothing precedes the word (the validity
-test does not strip, the converter does) -/
+test does not chomp, the converter does) -/
 def ddAccepted (sepC : Char) (d : PinDoc) : Bool :=
   (d.dd.map (fun x => !isDD x && nFields sepC x == d.cols.length)).getD true
 
